@@ -274,7 +274,12 @@ func (g *gen) form(c ctx, d int) r.Val {
 	case 20:
 		nc := c.with("funcall-lambda")
 		nc.inFn = true
-		return list("funcall", list("lambda", append([]r.Val{r.L(sym("p"))}, g.body(nc, d+1)...)...), int64(0))
+		lam := list("lambda", append([]r.Val{r.L(sym("p"))}, g.body(nc, d+1)...)...)
+		if g.pick("lambdaform", 2) == 0 {
+			// the lambda expression as the head of the call: ((lambda (p) ...) 0)
+			return r.L(lam, int64(0))
+		}
+		return list("funcall", lam, int64(0))
 	default:
 		return list("if", sym("t"), list("progn", g.body(c.with("if"), d+1)...))
 	}
